@@ -405,14 +405,14 @@ func runC06(ctx *Ctx) error {
 }
 
 // the model's verdict for programs inside the modelled alphabet: MTyped p (the Coq side runs type_of),
-// everything else (null steps, set/increment, aggregate, mark/jump, empty statement) is outside the model
+// everything else (set/increment, aggregate, mark/jump, empty statement) is outside the model
 func c06ModelClass(p []tStmt, graph string) string {
 	if graph != "g" {
 		return "MAny"
 	}
 	for _, s := range p {
 		switch s.Op {
-		case "V", "E", "in", "out", "both", "inE", "outE", "bothE", "has", "hasLabel", "hasId", "hasKey", "as", "select", "fields", "render", "path", "unwind", "distinct", "count", "limit", "skip", "range":
+		case "V", "E", "in", "out", "both", "inE", "outE", "bothE", "inNull", "outNull", "inENull", "outENull", "has", "hasLabel", "hasId", "hasKey", "as", "select", "fields", "render", "path", "unwind", "distinct", "count", "limit", "skip", "range":
 		default:
 			return "MAny"
 		}
